@@ -132,16 +132,38 @@ def get_metric(name):
 
 
 class Recorder:
-    """Wraps a metric; remembers every (second argument, result) pair it produced."""
+    """Wraps a metric; remembers every (second argument, result) pair it produced.
 
-    def __init__(self, fn):
+    style 'fresh': every call returns a new array (the compiled kernels' behaviour);
+    style 'owned_rows': the metric answers from a table it owns and returns the ROW VIEW (a precomputed distance matrix);
+    style 'reused_buffer': every result is written into one work vector which is returned (partial(kernel, out=scratch)).
+    In the last two the returned storage stays the metric's: it must hold the metric's values afterwards."""
+
+    def __init__(self, fn, style="fresh"):
         self.fn = fn
         self.calls = []
+        self.style = style
+        self.table = {}
+        self.buf = None
 
     def __call__(self, X, y):
-        r = self.fn(X, y)
+        r = np.asarray(self.fn(X, y))
         self.calls.append((len(X), id(y), np.array(r, dtype=float, copy=True).reshape(-1)))
+        if self.style == "owned_rows":
+            row = np.array(r, dtype=np.float64, copy=True)
+            self.table[len(self.calls) - 1] = (row, row.copy())
+            return row
+        if self.style == "reused_buffer":
+            if self.buf is None or self.buf.shape != r.shape:
+                self.buf = np.empty(r.shape, dtype=np.float64)
+            self.buf[...] = r
+            return self.buf
         return r
+
+    def check_owned(self):
+        for k_, (row, orig) in self.table.items():
+            require(np.array_equal(row, orig), "assign: the library wrote into an array the metric returned and still owns "
+                    "(row %d of its distance table)" % k_, before=orig.tolist()[:6], after=row.tolist()[:6])
 
 
 @st.composite
@@ -213,7 +235,8 @@ def assign_case(draw, max_frames=12, max_centers=16, max_feat=4, md_share=4):
                 "X": [int_list(draw, lo, hi, f) for _ in range(n)],
                 "C": draw_center_spec(draw, k, n, f, lo, hi),
                 "centers_as": draw(st.sampled_from(["list", "list", "array", "tuple", "views", "data_itself"])),
-                "readonly": draw(st.sampled_from([False, False, True]))}
+                "readonly": draw(st.sampled_from([False, False, True])),
+                "metric_style": draw(st.sampled_from(["fresh", "fresh", "owned_rows", "reused_buffer"]))}
         numeric = draw(st.sampled_from(["plain"] * 5 + ["tiny", "offset", "near_tie"]))
         if numeric == "tiny" and dtype.startswith("float"):
             case["scale"] = draw(st.sampled_from([1e-9, 1e-10, 1e-11]))           # coordinates in metres
@@ -296,7 +319,7 @@ def run_assign(case):
         C = build_centers(X, case["C"], dtype, case["scale"], case["jitter_seed"], offset=case.get("offset", 0.0))
         Xr = np.array(X, dtype=np.float64)
         D = R.dist_matrix(Xr, [np.array(c, dtype=np.float64) for c in C], case["metric"])
-        rec = Recorder(get_metric(case["metric"]))
+        rec = Recorder(get_metric(case["metric"]), case.get("metric_style", "fresh"))
         if case["centers_as"] == "data_itself":
             # the data set assigned to itself (every frame is a center): the very same array object on both sides
             C = [X[i] for i in range(len(X))]
@@ -322,6 +345,7 @@ def run_assign(case):
             (centers if not isinstance(centers, np.ndarray) else [centers]), c_before)),
             "assign: the data or the centers were modified")
         check_nearest(a, d, D, tol, "assign")
+        rec.check_owned()
         # exactness against the values the supplied metric actually returned
         exact = "skipped"
         if case["centers_as"] in ("list", "tuple", "views"):
@@ -349,6 +373,7 @@ def run_assign(case):
         cl = ["kind=array", "regime=" + case["regime"], "metric=" + case["metric"], "dtype=" + dtype,
               "layout=" + case["layout"], "centers_as=" + case["centers_as"], "exact=" + exact,
               "ties=%s" % ties, "jitter=%s" % (case["jitter_seed"] is not None), "numeric=" + case.get("numeric", "plain"),
+              "metric_style=" + case.get("metric_style", "fresh"),
               "dup_frames=%s" % (len({tuple(r) for r in Xr.tolist()}) < len(X))]
         return Info(len(C) >= 2 and used >= 2, cl)
 
